@@ -2142,7 +2142,10 @@ func (interp *Interpreter) cfg(root *node, sc *scope, importPath, pkgName string
 				init.tnext = sbn.start
 				n.child[0].tnext = init.start
 			} else {
-				n.child[0].tnext = sbn.start
+				// Chain the init statement, if any, then the tag expression, then the clauses.
+				for i, c := range n.child[:len(n.child)-1] {
+					c.tnext = n.child[i+1].start
+				}
 			}
 
 		case switchIfStmt: // like an if-else chain
